@@ -197,34 +197,44 @@ Proof.
     destruct H as [H|H]; [discriminate|]. rewrite H. reflexivity.
 Qed.
 
+Lemma own_unjournaled : forall m, own_number m = false -> unjournaled m = false.
+Proof.
+  intros m H. unfold own_number in H. unfold unjournaled. apply orb_false_iff in H. destruct H as [H1 H2].
+  rewrite H1, H2. reflexivity.
+Qed.
+
 Lemma send_alloc : forall w m s r, send_gate w m = Some (s, r) -> mtype_eqb (f_type m) TTest = false ->
   own_number m = false ->
   send_msg m w = persist_out (out_frame m (nout w)) (written w s r (nout w + 1) (out_frame m (nout w))).
 Proof.
-  intros w m s r Hg Ht Ho. unfold send_msg. munfold. unfold send_gate in Hg. unfold own_number in Ho.
+  intros w m s r Hg Ht Ho. pose proof (own_unjournaled m Ho) as Hu.
+  unfold send_msg. munfold. unfold send_gate in Hg. unfold own_number in Ho.
   destruct (is_disc (st w)) eqn:Hd; [discriminate|].
   destruct (cstate_eqb (st w) NCE) eqn:Hn.
   - destruct (mtype_eqb (f_type m) TLogon || mtype_eqb (f_type m) TLogout) eqn:Hl; [|discriminate].
-    inversion Hg; subst s r. rewrite Ht. cbn [nout nin st rl maxres dlv ctor base log past]. rewrite Ho.
+    inversion Hg; subst s r. rewrite Ht. cbn [nout nin st rl maxres dlv ctor base log past]. rewrite Ho, Hu.
     reflexivity.
   - destruct (role_eqb (rl w) Initiator && cstate_eqb (st w) LogonSent && negb (mtype_eqb (f_type m) TLogout)) eqn:Hi;
       [discriminate|].
-    inversion Hg; subst s r. rewrite Ht. rewrite Ho. reflexivity.
+    inversion Hg; subst s r. rewrite Ht. rewrite Ho, Hu. reflexivity.
 Qed.
 
+(* a frame with its own number: not journaled when PossDup / gap fill, journaled under that number otherwise *)
 Lemma send_own : forall w m s r, send_gate w m = Some (s, r) -> mtype_eqb (f_type m) TTest = false ->
   own_number m = true ->
-  send_msg m w = persist_out (out_frame m (f_seq m)) (written w s r (nout w) (out_frame m (f_seq m))).
+  send_msg m w =
+    if unjournaled m then (inl tt, written w s r (nout w) (out_frame m (f_seq m)))
+    else persist_out (out_frame m (f_seq m)) (written w s r (nout w) (out_frame m (f_seq m))).
 Proof.
   intros w m s r Hg Ht Ho. unfold send_msg. munfold. unfold send_gate in Hg. unfold own_number in Ho.
   destruct (is_disc (st w)) eqn:Hd; [discriminate|].
   destruct (cstate_eqb (st w) NCE) eqn:Hn.
   - destruct (mtype_eqb (f_type m) TLogon || mtype_eqb (f_type m) TLogout) eqn:Hl; [|discriminate].
     inversion Hg; subst s r. rewrite Ht. cbn [nout nin st rl maxres dlv ctor base log past]. rewrite Ho.
-    reflexivity.
+    destruct (unjournaled m); reflexivity.
   - destruct (role_eqb (rl w) Initiator && cstate_eqb (st w) LogonSent && negb (mtype_eqb (f_type m) TLogout)) eqn:Hi;
       [discriminate|].
-    inversion Hg; subst s r. rewrite Ht. rewrite Ho. reflexivity.
+    inversion Hg; subst s r. rewrite Ht. rewrite Ho. destruct (unjournaled m); reflexivity.
 Qed.
 
 (* ------------------------------------------------------------------ invariants *)
@@ -237,19 +247,6 @@ Definition In_ok (w : world) : Prop :=
   sin (jt w) + 1 = nin w /\ (forall n, In n (rin (jt w)) -> n < nin w) /\ 0 < nin w.
 Definition AwOk (w : world) : Prop := st w = Awaiting -> 0 < maxres w.
 Definition Inv (w : world) : Prop := Out_ok w /\ In_ok w /\ AwOk w.
-
-Fixpoint count_both (l : list effect) : nat :=
-  match l with
-  | [] => O
-  | EStmt (PUpdBoth _ _) :: l' => S (count_both l')
-  | _ :: l' => count_both l'
-  end.
-
-Lemma count_both_app : forall l1 l2, count_both (l1 ++ l2) = (count_both l1 + count_both l2)%nat.
-Proof.
-  induction l1 as [|e l1 IH]; intros; cbn [app count_both]; [reflexivity|].
-  destruct e as [f| |p]; try apply IH. destruct p; cbn; rewrite ?IH; reflexivity.
-Qed.
 
 Lemma has_out_false : forall t n, (forall f, In f (rout t) -> f_seq f < n) -> has_out t n = false.
 Proof.
@@ -270,7 +267,7 @@ Record Rel (w w' : world) : Prop := mkRel {
   r_rin : rin (jt w') = rin (jt w);
   r_out : Out_ok w';
   r_mono : nout w <= nout w';
-  r_log : exists l, log w' = log w ++ l /\ count_both l = O
+  r_log : exists l, log w' = log w ++ l
                     /\ (forall f, In f (writes l) -> original f = true -> nout w <= f_seq f < nout w');
   r_base : base w' = base w;
   r_past : past w' = past w;
@@ -281,18 +278,17 @@ Record Rel (w w' : world) : Prop := mkRel {
 Lemma Rel_refl : forall w, Out_ok w -> Rel w w.
 Proof.
   intros w Ho. constructor; auto; try lia.
-  exists []. rewrite app_nil_r. repeat split; auto; cbn in *; contradiction.
+  exists []. rewrite app_nil_r. split; auto. intros f Hf. cbn in Hf. contradiction.
 Qed.
 
 Lemma Rel_trans : forall a b c, Rel a b -> Rel b c -> Rel a c.
 Proof.
-  intros a b c [n1 s1 i1 o1 m1 [l1 [L1 [C1 W1]]] b1 p1 c1 a1] [n2 s2 i2 o2 m2 [l2 [L2 [C2 W2]]] b2 p2 c2 a2].
+  intros a b c [n1 s1 i1 o1 m1 [l1 [L1 W1]] b1 p1 c1 a1] [n2 s2 i2 o2 m2 [l2 [L2 W2]] b2 p2 c2 a2].
   constructor; try congruence; try lia; try assumption; auto.
-  exists (l1 ++ l2). rewrite L2, L1, app_assoc. split; [reflexivity|]. split.
-  - rewrite count_both_app, C1, C2. reflexivity.
-  - intros f Hf Ho. rewrite writes_app in Hf. apply in_app_or in Hf. destruct Hf as [Hf|Hf].
-    + specialize (W1 f Hf Ho). lia.
-    + specialize (W2 f Hf Ho). lia.
+  exists (l1 ++ l2). rewrite L2, L1, app_assoc. split; [reflexivity|].
+  intros f Hf Ho. rewrite writes_app in Hf. apply in_app_or in Hf. destruct Hf as [Hf|Hf].
+  - specialize (W1 f Hf Ho). lia.
+  - specialize (W2 f Hf Ho). lia.
 Qed.
 
 (* worlds that differ in live fields other than the counters *)
@@ -315,7 +311,7 @@ Proof.
   destruct Hab as (An & Ao & Ab & Al & Ap & Ac). destruct Hcd as (Cn & Co & Cb & Cl & Cp & Cc).
   constructor; try congruence; try lia; auto.
   - destruct o1 as [oc [os [orow op]]]. unfold Out_ok, clean. rewrite <- Hj2, <- Hdb2, <- Co. auto.
-  - rewrite Ao, <- Co. destruct L1 as [l [L [C W]]]. exists l. rewrite <- Cl, Al. auto.
+  - rewrite Ao, <- Co. destruct L1 as [l [L W]]. exists l. rewrite <- Cl, Al. auto.
 Qed.
 
 Lemma Rel_live : forall w w1 w2, Rel w w1 -> live_eq w1 w2 -> (AwOk w -> AwOk w2) -> Rel w w2.
@@ -380,7 +376,6 @@ Proof.
   - cbn. lia.
   - exists ([EWrite f; EDrain] ++ map EStmt (persist_out_prims f)).
     split; [cbn [W' with_log W written log]; rewrite <- !app_assoc; reflexivity|].
-    split; [reflexivity|].
     intros g Hg' Hor. cbn in Hg'. destruct Hg' as [Hg'|[]]. subst g. cbn. lia.
   - reflexivity.
   - reflexivity.
@@ -396,6 +391,153 @@ Proof.
   destruct (send_orig_cases m w Ho Hout) as [[He _]|(s & ro & W' & _ & He & HR & _)]; rewrite He in Hs; inversion Hs; subst.
   - apply Rel_refl; auto.
   - exact HR.
+Qed.
+
+
+(* ------------------------------------------------------------------ sends that are not journaled; ResendRequest servicing *)
+
+Fixpoint nstmts (l : list effect) : nat :=
+  match l with
+  | [] => O
+  | EStmt _ :: l' => S (nstmts l')
+  | _ :: l' => nstmts l'
+  end.
+
+Lemma nstmts_app : forall l1 l2, nstmts (l1 ++ l2) = (nstmts l1 + nstmts l2)%nat.
+Proof. induction l1 as [|e l1 IH]; intros; cbn [app nstmts]; [reflexivity|]. destruct e; cbn; rewrite ?IH; reflexivity. Qed.
+
+Lemma fold_estep_nostmt : forall l d, nstmts l = O -> fold_left estep l d = d.
+Proof.
+  induction l as [|e l IH]; intros d H; cbn [fold_left]; [reflexivity|].
+  destruct e; cbn [nstmts] in H; try discriminate; cbn [estep]; apply IH; exact H.
+Qed.
+
+(* w' is w after PossDup copies / gap fills and state changes only: no SQL statement, counters untouched,
+   nothing original on the wire *)
+Record Quiet (w w' : world) : Prop := mkQuiet {
+  k_nin : nin w' = nin w;
+  k_nout : nout w' = nout w;
+  k_log : exists l, log w' = log w ++ l /\ nstmts l = O /\ (forall f, In f (writes l) -> original f = false);
+  k_base : base w' = base w;
+  k_past : past w' = past w;
+  k_ctor : ctor w' = ctor w;
+  k_aw : AwOk w -> AwOk w'
+}.
+
+Lemma Quiet_refl : forall w, Quiet w w.
+Proof.
+  intros w. constructor; auto. exists []. rewrite app_nil_r. repeat split; auto. intros f Hf; cbn in Hf; contradiction.
+Qed.
+
+Lemma Quiet_trans : forall a b c, Quiet a b -> Quiet b c -> Quiet a c.
+Proof.
+  intros a b c [n1 o1 [l1 [L1 [C1 W1]]] b1 p1 t1 a1] [n2 o2 [l2 [L2 [C2 W2]]] b2 p2 t2 a2].
+  constructor; try congruence; auto.
+  exists (l1 ++ l2). rewrite L2, L1, app_assoc. split; [reflexivity|]. split.
+  - rewrite nstmts_app, C1, C2. reflexivity.
+  - intros f Hf. rewrite writes_app in Hf. apply in_app_or in Hf. destruct Hf; auto.
+Qed.
+
+Lemma Quiet_db : forall w w', Quiet w w' -> db w' = db w.
+Proof.
+  intros w w' [_ _ [l [L [C _]]] B _ _ _]. unfold db. rewrite B, L, replay_app. apply fold_estep_nostmt. exact C.
+Qed.
+
+Lemma Quiet_Rel : forall w w', Out_ok w -> Quiet w w' -> Rel w w'.
+Proof.
+  intros w w' (Hc & Hs & Hr & Hp) Q. pose proof (Quiet_db _ _ Q) as Hdb.
+  assert (Hj : jt w' = jt w) by (unfold jt; rewrite Hdb; reflexivity).
+  destruct Q as [n o [l [L [C W]]] b p t a].
+  constructor; try congruence; auto.
+  - unfold Out_ok, clean. rewrite Hdb, Hj, o. auto.
+  - lia.
+  - exists l. split; auto. intros f Hf Ho. rewrite (W f Hf) in Ho. discriminate.
+Qed.
+
+Lemma own_not_original : forall m n, own_number m = true -> original (out_frame m n) = false.
+Proof.
+  intros m n H. unfold own_number in H. unfold original, out_frame. cbn [f_pd f_type].
+  destruct (f_pd m); cbn; [reflexivity|]. rewrite orb_false_r in H. rewrite H. reflexivity.
+Qed.
+
+Lemma unjournaled_own : forall m, unjournaled m = true -> own_number m = true.
+Proof.
+  intros m H. unfold unjournaled in H. unfold own_number. destruct (f_pd m); [apply orb_true_r|].
+  cbn in H. apply andb_prop in H. destruct H as [H _]. rewrite H. reflexivity.
+Qed.
+
+Lemma send_quiet : forall m w r w', unjournaled m = true -> send_msg m w = (r, w') -> Quiet w w'.
+Proof.
+  intros m w r w' Hu Hs. pose proof (unjournaled_own m Hu) as Ho.
+  destruct (mtype_eqb (f_type m) TTest) eqn:Ht.
+  { rewrite send_refused in Hs by auto. inversion Hs; subst. apply Quiet_refl. }
+  destruct (send_gate w m) as [[s ro]|] eqn:Hg.
+  2:{ rewrite send_refused in Hs by auto. inversion Hs; subst. apply Quiet_refl. }
+  rewrite (send_own w m s ro Hg Ht Ho), Hu in Hs. inversion Hs; subst r w'. clear Hs.
+  constructor; try reflexivity.
+  - exists [EWrite (out_frame m (f_seq m)); EDrain]. split; [cbn [written log]; rewrite <- app_assoc; reflexivity|].
+    split; [reflexivity|]. intros g Hg'. cbn in Hg'. destruct Hg' as [Hg'|[]]. subst g. apply own_not_original; auto.
+  - unfold AwOk. cbn [st maxres written]. intros Ha Hst. apply Ha. eapply gate_awaiting; eauto.
+Qed.
+
+Definition QuietM {A} (m : M A) : Prop := forall w r w', m w = (r, w') -> Quiet w w'.
+
+Lemma QuietM_ret : forall A (a : A), QuietM (ret a).
+Proof. intros A a w r w' H. inversion H; subst. apply Quiet_refl. Qed.
+Lemma QuietM_raise : forall A e, QuietM (@raise A e).
+Proof. intros A e w r w' H. inversion H; subst. apply Quiet_refl. Qed.
+Lemma QuietM_get : QuietM get.
+Proof. intros w r w' H. inversion H; subst. apply Quiet_refl. Qed.
+Lemma QuietM_assert : forall b, QuietM (assert_ b).
+Proof. intros []; [apply QuietM_ret|apply QuietM_raise]. Qed.
+Lemma QuietM_bind : forall A B (m : M A) (k : A -> M B), QuietM m -> (forall a, QuietM (k a)) -> QuietM (bind m k).
+Proof.
+  intros A B m k Hm Hk w r w' H. unfold bind in H.
+  destruct (m w) as [[a|e] w1] eqn:E.
+  - eapply Quiet_trans; [eapply Hm; eauto|eapply Hk; eauto].
+  - inversion H; subst. eapply Hm; eauto.
+Qed.
+Lemma QuietM_set_st : forall s, s <> Awaiting -> QuietM (set_st s).
+Proof.
+  intros s Hs w r w' H. unfold set_st, upd in H. inversion H; subst.
+  constructor; try reflexivity.
+  - exists []. cbn [log]. rewrite app_nil_r. repeat split; auto. intros f Hf; cbn in Hf; contradiction.
+  - intros _ E. cbn in E. contradiction.
+Qed.
+Lemma QuietM_send : forall m, unjournaled m = true -> QuietM (send_msg m).
+Proof. intros m Hm w r w' H. eapply send_quiet; eauto. Qed.
+
+Lemma QuietM_replay_loop : forall rows gfb gfe, QuietM (replay_loop rows gfb gfe).
+Proof.
+  induction rows as [|x rows IH]; intros gfb gfe; cbn [replay_loop].
+  - apply QuietM_ret.
+  - destruct (is_session_type (f_type x)); [apply IH|].
+    apply QuietM_bind; [destruct (gfb <? gfe); [apply QuietM_send; reflexivity|apply QuietM_ret]|intros _].
+    apply QuietM_bind; [destruct (f_pd x); [apply QuietM_raise|apply QuietM_ret]|intros _].
+    apply QuietM_bind; [apply QuietM_send; reflexivity|intros _].
+    apply IH.
+Qed.
+
+(* servicing a ResendRequest writes neither the journal nor a counter, whatever the request and the journal *)
+Lemma QuietM_process_resend : forall f, QuietM (process_resend f).
+Proof.
+  intros f. unfold process_resend.
+  apply QuietM_bind; [apply QuietM_get|intros w0].
+  apply QuietM_bind; [destruct (cstate_eqb (st w0) Awaiting); [apply QuietM_ret|apply QuietM_set_st; discriminate]|intros _].
+  apply QuietM_bind; [apply QuietM_get|intros w1].
+  apply QuietM_bind; [apply QuietM_replay_loop|intros g].
+  apply QuietM_bind; [apply QuietM_assert|intros _].
+  apply QuietM_bind; [destruct (fst g <? nout w1); [apply QuietM_send; reflexivity|apply QuietM_ret]|intros _].
+  apply QuietM_bind; [apply QuietM_get|intros w2].
+  destruct (cstate_eqb (st w2) Awaiting); [apply QuietM_ret|apply QuietM_set_st; discriminate].
+Qed.
+
+Lemma resend_keeps_journal : forall f w r w', process_resend f w = (r, w') ->
+  db w' = db w /\ nin w' = nin w /\ nout w' = nout w
+  /\ exists l, log w' = log w ++ l /\ nstmts l = O /\ (forall g, In g (writes l) -> original g = false).
+Proof.
+  intros f w r w' H. pose proof (QuietM_process_resend f w r w' H) as Q.
+  split; [apply Quiet_db; exact Q|]. split; [apply Q|]. split; [apply Q|apply Q].
 Qed.
 
 (* ------------------------------------------------------------------ handlers that only send originals *)
@@ -544,6 +686,9 @@ Qed.
 Lemma RelM_send : forall m, own_number m = false -> RelM (send_msg m).
 Proof. intros m Hm w r w' Ho Hp H. eapply send_orig_rel; eauto. Qed.
 
+Lemma RelM_process_resend : forall f, RelM (process_resend f).
+Proof. intros f w r w' Ho Hp H. apply Quiet_Rel; auto. eapply QuietM_process_resend; eauto. Qed.
+
 Lemma RelM_disconnect : forall b, RelM (disconnect b).
 Proof. intros b w r w' Ho Hp H. eapply disconnect_rel; eauto. Qed.
 
@@ -553,7 +698,7 @@ Proof. intros n w r w' Ho Hp H. eapply check_gaps_rel; eauto. Qed.
 Ltac relm :=
   repeat first
     [ apply RelM_ret | apply RelM_raise | apply RelM_get | apply RelM_assert | apply RelM_set_rl
-    | apply RelM_deliver | apply RelM_disconnect | apply RelM_check_gaps
+    | apply RelM_deliver | apply RelM_disconnect | apply RelM_check_gaps | apply RelM_process_resend
     | apply RelM_set_st; discriminate
     | apply RelM_send; reflexivity
     | apply RelM_catch
@@ -572,9 +717,9 @@ Proof.
     relm; try apply RelM_process_logon; relm.
 Qed.
 
-Lemma RelM_pm_dispatch : forall f v, mtype_eqb (f_type f) TResend = false -> RelM (pm_dispatch f v).
+Lemma RelM_pm_dispatch : forall f v, RelM (pm_dispatch f v).
 Proof.
-  intros f v Hf. unfold pm_dispatch. destruct (f_type f) eqn:Ht; try discriminate; relm.
+  intros f v. unfold pm_dispatch. destruct (f_type f) eqn:Ht; relm.
 Qed.
 
 (* ------------------------------------------------------------------ operation-level step relation *)
@@ -607,7 +752,7 @@ Qed.
 
 Lemma Rel_Step : forall w w', Inv w -> Rel w w' -> Step w w'.
 Proof.
-  intros w w' (Ho & (Hs & Hr & Hp) & Ha) [n1 s1 i1 o1 m1 [l [L [C W]]] b1 p1 c1 a1].
+  intros w w' (Ho & (Hs & Hr & Hp) & Ha) [n1 s1 i1 o1 m1 [l [L W]] b1 p1 c1 a1].
   constructor; auto.
   - split; [exact o1|]. split; [|auto].
     unfold In_ok. rewrite s1, i1, n1. auto.
@@ -646,7 +791,7 @@ Qed.
 
 Lemma finalize_step : forall f w r w', mtype_eqb (f_type f) TSeqReset = false -> Inv w ->
   finalize f w = (r, w') ->
-  Step w w' /\ nout w' = nout w /\ (exists l, log w' = log w ++ l /\ writes l = [] /\ count_both l = O).
+  Step w w' /\ nout w' = nout w /\ (exists l, log w' = log w ++ l /\ writes l = []).
 Proof.
   intros f w r w' Hty HI H. pose proof HI as (Ho & (Hs & Hr & Hp) & Ha).
   unfold finalize in H. rewrite Hty in H. munfold_in H.
@@ -658,7 +803,7 @@ Proof.
   cbn [st maxres nin nout rl dlv ctor base log past] in H.
   assert (Hgen : forall W, nout W = nout w -> base W = base w -> log W = log w -> past W = past w -> ctor W = ctor w ->
                  nin W = f_seq f + 1 -> AwOk W -> persist_in (f_seq f) W = (r, w') ->
-                 Step w w' /\ nout w' = nout w /\ (exists l, log w' = log w ++ l /\ writes l = [] /\ count_both l = O)).
+                 Step w w' /\ nout w' = nout w /\ (exists l, log w' = log w ++ l /\ writes l = [])).
   { intros W Hn Hb Hl Hpa Hc Hni HaW HP.
     assert (HoW : Out_ok W) by (eapply Out_ok_ext; [| | |exact Ho]; auto).
     assert (HjW : jt W = jt w) by (unfold jt, db; rewrite Hb, Hl; reflexivity).
@@ -684,10 +829,10 @@ Lemma Inv_Out : forall w, Inv w -> Out_ok w. Proof. intros w H; apply H. Qed.
 Lemma Inv_nin : forall w, Inv w -> 0 < nin w. Proof. intros w (_ & (_ & _ & H) & _); exact H. Qed.
 
 Lemma pm_plain_step : forall f w r w',
-  mtype_eqb (f_type f) TSeqReset = false -> mtype_eqb (f_type f) TResend = false -> Inv w ->
+  mtype_eqb (f_type f) TSeqReset = false -> Inv w ->
   process_message f w = (r, w') -> Step w w'.
 Proof.
-  intros f w r w' Hs Hr HI H. unfold process_message in H.
+  intros f w r w' Hs HI H. unfold process_message in H.
   cbv beta iota delta [bind get] in H.
   destruct (too_low f w).
   { apply Rel_Step; auto. eapply disconnect_rel; eauto using Inv_Out. }
@@ -873,132 +1018,6 @@ Proof.
   - unfold ret in H. inversion H; subst. exact S1.
 Qed.
 
-(* ------------------------------------------------------------------ servicing a ResendRequest *)
-
-(* w' is w after sends that carry their own number (PossDup copies, gap fills): inbound side and live
-   counters frozen, the file clean, nothing original written, no counter statement *)
-Record Rel2 (w w' : world) : Prop := mkRel2 {
-  q_nin : nin w' = nin w;
-  q_nout : nout w' = nout w;
-  q_sin : sin (jt w') = sin (jt w);
-  q_rin : rin (jt w') = rin (jt w);
-  q_clean : clean w';
-  q_log : exists l, log w' = log w ++ l /\ count_both l = O
-                    /\ (forall f, In f (writes l) -> original f = false);
-  q_base : base w' = base w;
-  q_past : past w' = past w;
-  q_ctor : ctor w' = ctor w;
-  q_aw : AwOk w -> AwOk w'
-}.
-
-Lemma Rel2_refl : forall w, clean w -> Rel2 w w.
-Proof.
-  intros w Hc. constructor; auto. exists []. rewrite app_nil_r. repeat split; auto. intros f Hf; cbn in Hf; contradiction.
-Qed.
-
-Lemma Rel2_trans : forall a b c, Rel2 a b -> Rel2 b c -> Rel2 a c.
-Proof.
-  intros a b c [n1 o1 s1 i1 c1 [l1 [L1 [C1 W1]]] b1 p1 t1 a1] [n2 o2 s2 i2 c2 [l2 [L2 [C2 W2]]] b2 p2 t2 a2].
-  constructor; try congruence; auto.
-  exists (l1 ++ l2). rewrite L2, L1, app_assoc. split; [reflexivity|]. split.
-  - rewrite count_both_app, C1, C2. reflexivity.
-  - intros f Hf. rewrite writes_app in Hf. apply in_app_or in Hf. destruct Hf; auto.
-Qed.
-
-Lemma Rel2_live : forall w w1 w2, Rel2 w w1 -> live_eq w1 w2 -> (AwOk w -> AwOk w2) -> Rel2 w w2.
-Proof.
-  intros w w1 w2 [n1 o1 s1 i1 c1 L1 b1 p1 t1 a1] Hl Ha.
-  assert (Hdb : db w1 = db w2) by (apply live_eq_db; auto).
-  assert (Hj : jt w1 = jt w2) by (unfold jt; rewrite Hdb; reflexivity).
-  destruct Hl as (Cn & Co & Cb & Cl & Cp & Cc).
-  constructor.
-  - congruence.
-  - congruence.
-  - rewrite <- Hj. exact s1.
-  - rewrite <- Hj. exact i1.
-  - unfold clean. rewrite <- Hdb. exact c1.
-  - destruct L1 as [l L]. exists l. rewrite <- Cl. exact L.
-  - congruence.
-  - congruence.
-  - congruence.
-  - exact Ha.
-Qed.
-
-Lemma own_not_original : forall m n, own_number m = true -> original (out_frame m n) = false.
-Proof.
-  intros m n H. unfold own_number in H. unfold original, out_frame. cbn [f_pd f_type].
-  destruct (f_pd m); cbn; [reflexivity|]. rewrite orb_false_r in H. rewrite H. reflexivity.
-Qed.
-
-Lemma send_own_rel2 : forall m w r w', own_number m = true -> clean w -> send_msg m w = (r, w') -> Rel2 w w'.
-Proof.
-  intros m w r w' Ho Hc Hs.
-  destruct (mtype_eqb (f_type m) TTest) eqn:Ht.
-  { rewrite send_refused in Hs by auto. inversion Hs; subst. apply Rel2_refl; auto. }
-  destruct (send_gate w m) as [[s ro]|] eqn:Hg.
-  2:{ rewrite send_refused in Hs by auto. inversion Hs; subst. apply Rel2_refl; auto. }
-  rewrite (send_own w m s ro Hg Ht Ho) in Hs.
-  set (f := out_frame m (f_seq m)) in *.
-  set (W := written w s ro (nout w) f) in *.
-  assert (Hjt : jt W = jt w) by apply jt_written.
-  assert (Hdb : db W = db w) by apply db_written.
-  assert (Hor : original f = false) by (apply own_not_original; auto).
-  assert (Haw : AwOk w -> forall X, st X = s -> maxres X = maxres w -> AwOk X).
-  { intros Ha X Hst Hm Hx. rewrite Hm. apply Ha. eapply gate_awaiting; eauto. congruence. }
-  destruct (has_out (jt W) (f_seq f)) eqn:Hh.
-  - destruct (persist_out_dup f W Hh) as [Hp Hd].
-    set (W' := with_log W (log W ++ [EStmt (PInsOut f)])) in *.
-    rewrite Hp in Hs. inversion Hs; subst r w'. clear Hs.
-    assert (Hj' : jt W' = jt w) by (unfold jt at 1; rewrite Hd, Hdb; reflexivity).
-    constructor; try reflexivity.
-    + rewrite Hj'. reflexivity.
-    + rewrite Hj'. reflexivity.
-    + unfold clean. rewrite Hd, Hdb. exact Hc.
-    + exists ([EWrite f; EDrain] ++ [EStmt (PInsOut f)]).
-      split; [cbn [W' with_log W written log]; rewrite <- !app_assoc; reflexivity|].
-      split; [reflexivity|]. intros g Hg'. cbn in Hg'. destruct Hg' as [Hg'|[]]. subst g. exact Hor.
-    + intros Ha. apply (Haw Ha); reflexivity.
-  - destruct (persist_out_ok f W Hh) as [Hp Hd].
-    set (W' := with_log W (log W ++ map EStmt (persist_out_prims f))) in *.
-    rewrite Hp in Hs. inversion Hs; subst r w'. clear Hs.
-    assert (Hj' : jt W' = ins_out_tab (jt W) f) by (unfold jt at 1; rewrite Hd; reflexivity).
-    constructor; try reflexivity.
-    + rewrite Hj', Hjt. reflexivity.
-    + rewrite Hj', Hjt. reflexivity.
-    + unfold clean. rewrite Hd. reflexivity.
-    + exists ([EWrite f; EDrain] ++ map EStmt (persist_out_prims f)).
-      split; [cbn [W' with_log W written log]; rewrite <- !app_assoc; reflexivity|].
-      split; [reflexivity|]. intros g Hg'. cbn in Hg'. destruct Hg' as [Hg'|[]]. subst g. exact Hor.
-    + intros Ha. apply (Haw Ha); reflexivity.
-Qed.
-
-Definition Rel2M {A} (m : M A) : Prop := forall w r w', clean w -> m w = (r, w') -> Rel2 w w'.
-
-Lemma Rel2M_ret : forall A (a : A), Rel2M (ret a).
-Proof. intros A a w r w' Hc H. inversion H; subst. apply Rel2_refl; auto. Qed.
-Lemma Rel2M_raise : forall A e, Rel2M (@raise A e).
-Proof. intros A e w r w' Hc H. inversion H; subst. apply Rel2_refl; auto. Qed.
-Lemma Rel2M_bind : forall A B (m : M A) (k : A -> M B), Rel2M m -> (forall a, Rel2M (k a)) -> Rel2M (bind m k).
-Proof.
-  intros A B m k Hm Hk w r w' Hc H. unfold bind in H.
-  destruct (m w) as [[a|e] w1] eqn:E.
-  - specialize (Hm _ _ _ Hc E). eapply Rel2_trans; [exact Hm|]. eapply Hk; [apply Hm|exact H].
-  - inversion H; subst. eapply Hm; eauto.
-Qed.
-Lemma Rel2M_send : forall m, own_number m = true -> Rel2M (send_msg m).
-Proof. intros m Hm w r w' Hc H. eapply send_own_rel2; eauto. Qed.
-
-Lemma Rel2M_replay_loop : forall rows gfb gfe, Rel2M (replay_loop rows gfb gfe).
-Proof.
-  induction rows as [|x rows IH]; intros gfb gfe; cbn [replay_loop].
-  - apply Rel2M_ret.
-  - destruct (is_session_type (f_type x)); [apply IH|].
-    apply Rel2M_bind; [destruct (gfb <? gfe); [apply Rel2M_send; reflexivity|apply Rel2M_ret]|intros _].
-    apply Rel2M_bind; [destruct (f_pd x); [apply Rel2M_raise|apply Rel2M_ret]|intros _].
-    apply Rel2M_bind; [apply Rel2M_send; unfold own_number; cbn; apply orb_true_r|intros _].
-    apply IH.
-Qed.
-
 Lemma Inv_live : forall a b, live_eq a b -> Inv a -> AwOk b -> Inv b.
 Proof.
   intros a b Hl (Ho & (Hs & Hr & Hp) & _) Ha.
@@ -1008,198 +1027,20 @@ Proof.
   destruct Hl as (Hn & _). unfold In_ok. rewrite <- Hj, <- Hn. auto.
 Qed.
 
-Lemma count_both_set : forall i o, count_both (map EStmt (set_prims i o)) = 1%nat.
-Proof. reflexivity. Qed.
-
-Lemma resend_core_spec : forall f w r w', Inv w -> resend_core f w = (r, w') ->
-  exists l, log w' = log w ++ l /\ base w' = base w /\ past w' = past w /\ ctor w' = ctor w
-    /\ (forall g, In g (writes l) -> original g = false)
-    /\ (count_both l <> 1%nat -> Inv w' /\ nout w' = nout w).
-Proof.
-  intros f w r w' HI H. pose proof HI as (Ho & HIn & Ha). pose proof Ho as (Hc & Hso & Hro & Hpo).
-  unfold resend_core in H. cbv beta zeta iota delta [bind get] in H.
-  rewrite set_seq_num_out in H.
-  destruct (0 <? f_a f) eqn:Hb.
-  2:{ inversion H; subst. exists []. rewrite app_nil_r.
-      split; [reflexivity|]. split; [reflexivity|]. split; [reflexivity|]. split; [reflexivity|].
-      split; [intros g Hg; cbn in Hg; contradiction|]. intros _. split; [exact HI|reflexivity]. }
-  set (wb := set_world w (nin w) (f_a f)) in *.
-  assert (Ib : Inv wb) by (apply set_world_out_inv; auto; lia).
-  set (S1 := map EStmt (set_prims (nin w) (f_a f))) in *.
-  assert (Lb : log wb = log w ++ S1) by reflexivity.
-  match type of H with (let (_, _) := replay_loop ?rows ?b1 ?b2 wb in _) = _ =>
-    destruct (replay_loop rows b1 b2 wb) as [g wc] eqn:El end.
-  pose proof (Rel2M_replay_loop _ _ _ wb g wc (proj1 (Inv_Out _ Ib)) El) as Rc.
-  destruct (q_log _ _ Rc) as [l2 [L2 [C2 W2]]].
-  (* outcomes that stop between the rewind and the restore *)
-  assert (Hstop : forall wx lx, log wx = log wc ++ lx -> count_both lx = O -> (forall g0, In g0 (writes lx) -> original g0 = false) ->
-            base wx = base wc -> past wx = past wc -> ctor wx = ctor wc ->
-            exists l, log wx = log w ++ l /\ base wx = base w /\ past wx = past w /\ ctor wx = ctor w
-              /\ (forall g0, In g0 (writes l) -> original g0 = false)
-              /\ (count_both l <> 1%nat -> Inv wx /\ nout wx = nout w)).
-  { intros wx lx Lx Cx Wx Bx Px Tx. exists (S1 ++ l2 ++ lx).
-    split; [rewrite Lx, L2, Lb, <- !app_assoc; reflexivity|].
-    split; [rewrite Bx, (q_base _ _ Rc); reflexivity|].
-    split; [rewrite Px, (q_past _ _ Rc); reflexivity|].
-    split; [rewrite Tx, (q_ctor _ _ Rc); reflexivity|].
-    split.
-    - intros g0 Hg0. rewrite !writes_app in Hg0. unfold S1 in Hg0. rewrite writes_stmts in Hg0. cbn [app] in Hg0.
-      apply in_app_or in Hg0. destruct Hg0; auto.
-    - intros Hcount. exfalso. apply Hcount. rewrite !count_both_app, C2, Cx. reflexivity. }
-  destruct g as [[gb ge]|e].
-  2:{ inversion H; subst r w'. apply (Hstop wc []); auto; try (rewrite app_nil_r; reflexivity).
-      intros g0 Hg0; cbn in Hg0; contradiction. }
-  cbn [fst snd] in H. unfold assert_ in H.
-  destruct (ge <=? nout w) eqn:Hge.
-  2:{ unfold raise in H. inversion H; subst r w'. apply (Hstop wc []); auto; try (rewrite app_nil_r; reflexivity).
-      intros g0 Hg0; cbn in Hg0; contradiction. }
-  unfold ret at 1 in H.
-  (* the tail gap fill *)
-  assert (Htail : exists x wd, (if gb <? nout w then send_msg (mkF TSeqReset gb false (nout w) 1) else ret tt) wc = (x, wd)
-                               /\ Rel2 wc wd).
-  { destruct (gb <? nout w).
-    - destruct (send_msg (mkF TSeqReset gb false (nout w) 1) wc) as [x wd] eqn:Es. exists x, wd. split; auto.
-      eapply (send_own_rel2 (mkF TSeqReset gb false (nout w) 1)); [reflexivity|apply Rc|exact Es].
-    - exists (inl tt), wc. split; auto. apply Rel2_refl. apply Rc. }
-  destruct Htail as (x & wd & Et & Rd). rewrite Et in H.
-  destruct (q_log _ _ Rd) as [l3 [L3 [C3 W3]]].
-  destruct x as [[]|e].
-  2:{ inversion H; subst r w'. apply (Hstop wd l3); auto; apply Rd. }
-  rewrite set_seq_num_out in H.
-  assert (Hpb : (0 <? nout w) = true) by lia. rewrite Hpb in H.
-  assert (Rbd : Rel2 wb wd) by (eapply Rel2_trans; eauto).
-  set (we := set_world wd (nin wd) (nout w)) in *.
-  assert (Ie : Inv we).
-  { apply set_world_out_inv; [apply Rd| |apply Rbd; apply Ib|lia].
-    destruct Ib as (_ & (Hs & Hr & Hp) & _). unfold In_ok.
-    rewrite (q_sin _ _ Rbd), (q_rin _ _ Rbd), (q_nin _ _ Rbd). auto. }
-  assert (Hfin : forall wf, live_eq we wf -> AwOk wf -> (inl tt, wf) = (r, w') ->
-            exists l, log w' = log w ++ l /\ base w' = base w /\ past w' = past w /\ ctor w' = ctor w
-              /\ (forall g0, In g0 (writes l) -> original g0 = false)
-              /\ (count_both l <> 1%nat -> Inv w' /\ nout w' = nout w)).
-  { intros wf Hl Haf E. inversion E; subst r w'. clear E.
-    destruct Hl as (Fn & Fo & Fb & Fl & Fp & Fc).
-    exists (S1 ++ l2 ++ l3 ++ map EStmt (set_prims (nin wd) (nout w))).
-    split; [rewrite <- Fl; cbn [we set_world log]; rewrite L3, L2, Lb, <- !app_assoc; reflexivity|].
-    split; [rewrite <- Fb; cbn [we set_world base]; rewrite (q_base _ _ Rd), (q_base _ _ Rc); reflexivity|].
-    split; [rewrite <- Fp; cbn [we set_world past]; rewrite (q_past _ _ Rd), (q_past _ _ Rc); reflexivity|].
-    split; [rewrite <- Fc; cbn [we set_world ctor]; rewrite (q_ctor _ _ Rd), (q_ctor _ _ Rc); reflexivity|].
-    split.
-    - intros g0 Hg0. rewrite !writes_app in Hg0. unfold S1 in Hg0. rewrite !writes_stmts in Hg0. cbn [app] in Hg0.
-      rewrite app_nil_r in Hg0. apply in_app_or in Hg0. destruct Hg0; auto.
-    - intros _. split; [|rewrite <- Fo; reflexivity].
-      eapply Inv_live; [|exact Ie|exact Haf]. repeat split; auto. }
-  cbv beta iota delta [ret set_st upd] in H.
-  destruct (cstate_eqb (st we) Awaiting) eqn:Hst.
-  - apply (Hfin we); auto using live_eq_refl. apply Ie.
-  - eapply Hfin; [| |exact H]; [live_tac|]. unfold AwOk. cbn. discriminate.
-Qed.
-
-Lemma process_resend_spec : forall f w r w', Inv w -> process_resend f w = (r, w') ->
-  exists l, log w' = log w ++ l /\ base w' = base w /\ past w' = past w /\ ctor w' = ctor w
-    /\ (forall g, In g (writes l) -> original g = false)
-    /\ (count_both l <> 1%nat -> Inv w' /\ nout w' = nout w).
-Proof.
-  intros f w r w' HI H. unfold process_resend in H. cbv beta iota delta [bind get ret set_st upd] in H.
-  destruct (cstate_eqb (st w) Awaiting) eqn:Hs.
-  - eapply resend_core_spec; eauto.
-  - match type of H with resend_core f ?W = _ => set (wa := W) in * end.
-    assert (Ia : Inv wa).
-    { eapply Inv_live; [|exact HI|]; [live_tac|]. unfold AwOk. cbn. discriminate. }
-    destruct (resend_core_spec f wa r w' Ia H) as (l & L & B & P & C & Wn & K).
-    exists l. split; [exact L|]. split; [exact B|]. split; [exact P|]. split; [exact C|]. split; [exact Wn|].
-    intros Hc. destruct (K Hc) as [K1 K2]. split; [exact K1|exact K2].
-Qed.
-
-(* effects appended by an inbound ResendRequest: the whole operation is a Step unless exactly one
-   counter statement (the rewind without the restore) was executed *)
-Lemma pm_resend_step : forall f w r w', f_type f = TResend -> Inv w -> process_message f w = (r, w') ->
-  exists l, log w' = log w ++ l /\ (count_both l <> 1%nat -> Step w w').
-Proof.
-  intros f w r w' Ht HI H.
-  assert (Hs : mtype_eqb (f_type f) TSeqReset = false) by (rewrite Ht; reflexivity).
-  unfold process_message in H. cbv beta iota delta [bind get] in H.
-  assert (Hrel : forall w1, Rel w w1 -> exists l, log w1 = log w ++ l /\ (count_both l <> 1%nat -> Step w w1)).
-  { intros w1 R. destruct (r_log _ _ R) as [l [L [C W]]]. exists l. split; auto. intros _. apply Rel_Step; auto. }
-  destruct (too_low f w).
-  { apply Hrel. eapply disconnect_rel; eauto using Inv_Out. }
-  unfold catch at 1 in H.
-  destruct (pm_head f w) as [h w1] eqn:Eh.
-  assert (R1 : Rel w w1) by (eapply RelM_pm_head; eauto using Inv_Out, Inv_nin).
-  destruct h as [[v|]|e]; try (inversion H; subst; apply Hrel; auto; fail).
-  assert (I1 : Inv w1) by (apply (Rel_Step _ _ HI R1)).
-  unfold catch, pm_dispatch in H. rewrite Ht in H.
-  destruct (process_resend f w1) as [d w2] eqn:Ed.
-  destruct (process_resend_spec f w1 d w2 I1 Ed) as (l2 & L2 & B2 & P2 & C2 & W2 & K2).
-  destruct (r_log _ _ R1) as [l1 [L1 [C1 W1]]].
-  assert (Hmid : count_both l2 <> 1%nat -> Step w w2).
-  { intros Hc. destruct (K2 Hc) as [I2 N2].
-    eapply Step_trans; [apply Rel_Step; eauto|].
-    constructor; auto; try lia. exists l2. split; auto. intros g Hg Hog. rewrite (W2 g Hg) in Hog. discriminate. }
-  destruct v.
-  - destruct (count_both l2 =? 1)%nat eqn:Ec.
-    + (* aborted servicing: only the log shape is claimed *)
-      assert (Hlog : exists l3, log w' = log w2 ++ l3 /\ count_both l3 = O).
-      { unfold finalize in H. rewrite Hs in H. munfold_in H.
-        destruct (f_seq f =? nin w2).
-        2:{ cbn in H. inversion H; subst. exists []. rewrite app_nil_r. auto. }
-        cbn [st maxres nin nout rl dlv ctor base log past] in H.
-        destruct (f_seq f <=? 0).
-        { inversion H; subst. exists []. cbn. rewrite app_nil_r. auto. }
-        assert (Hp : forall W, log W = log w2 -> forall r0 w0, persist_in (f_seq f) W = (r0, w0) ->
-                       exists l3, log w0 = log w2 ++ l3 /\ count_both l3 = O).
-        { intros W LW r0 w0 HP. destruct (has_in (jt W) (f_seq f)) eqn:Hh.
-          - destruct (persist_in_dup _ _ Hh) as [E _]. rewrite E in HP. inversion HP; subst.
-            exists [EStmt (PInsIn (f_seq f))]. cbn [log with_log]. rewrite LW. auto.
-          - destruct (persist_in_ok _ _ Hh) as [E _]. rewrite E in HP. inversion HP; subst.
-            exists (map EStmt (persist_in_prims (f_seq f))). cbn [log with_log]. rewrite LW. auto. }
-        cbn [st maxres nin nout rl dlv ctor base log past] in H.
-        destruct (cstate_eqb (st w2) Awaiting).
-        - destruct (0 <? maxres w2).
-          + destruct (maxres w2 <=? f_seq f); eapply Hp; [|exact H| |exact H]; reflexivity.
-          + inversion H; subst. exists []. cbn. rewrite app_nil_r. auto.
-        - eapply Hp; [|exact H]; reflexivity. }
-      destruct Hlog as [l3 [L3 C3]].
-      exists (l1 ++ l2 ++ l3). split; [rewrite L3, L2, L1, <- !app_assoc; reflexivity|].
-      intros Hc. exfalso. apply Hc. rewrite !count_both_app, C1, C3. apply Nat.eqb_eq in Ec. lia.
-    + assert (Hc2 : count_both l2 <> 1%nat) by (apply Nat.eqb_neq; exact Ec).
-      specialize (Hmid Hc2).
-      destruct (finalize_step f w2 r w' Hs (s_inv _ _ Hmid) H) as [S3 [N3 [l3 [L3 [W3 C3]]]]].
-      exists (l1 ++ l2 ++ l3). split; [rewrite L3, L2, L1, <- !app_assoc; reflexivity|].
-      intros _. eapply Step_trans; eauto.
-  - unfold ret in H. inversion H; subst r w'.
-    exists (l1 ++ l2). split; [rewrite L2, L1, <- !app_assoc; reflexivity|].
-    intros Hc. apply Hmid. rewrite count_both_app, C1 in Hc. exact Hc.
-Qed.
-
 (* ------------------------------------------------------------------ known-finding classes and the main invariant *)
-
-(* effects appended to the log by one operation *)
-Definition new_effects (w : world) (o : op) : list effect := skipn (length (log w)) (log (run_op w o)).
 
 (* D11: an inbound SequenceReset that is finalized (MsgSeqNum <= NewSeqNo, NewSeqNo > 1) and whose NewSeqNo is not
    its own MsgSeqNum + 1: the stored inbound counter becomes the frame's own number *)
 Definition KF_D11 (o : op) : bool :=
   match o with OIn f => mtype_eqb (f_type f) TSeqReset && seqreset_lag f | _ => false end.
 
-(* D20: the application sends a frame that carries its own number (SequenceReset, PossDup): journaled under that
-   number, the live counter does not move *)
+(* D20: the application sends a SequenceReset WITHOUT GapFillFlag (and without PossDupFlag): it is journaled under its
+   own number, the live counter does not move.  (Gap fills and PossDup messages are not journaled since the repair of D12.) *)
 Definition KF_D20 (o : op) : bool :=
-  match o with OSend m => own_number m | _ => false end.
+  match o with OSend m => own_number m && negb (unjournaled m) | _ => false end.
 
-(* D12: a ResendRequest whose servicing rewinds the outbound counter and is not completed (exactly one
-   `UPDATE session SET inboundSeqNo=?, outboundSeqNo=?` during the operation: the rewind without the restore) *)
-Definition KF_D12 (w : world) (o : op) : bool :=
-  match o with
-  | OIn f => mtype_eqb (f_type f) TResend && Nat.eqb (count_both (new_effects w o)) 1
-  | _ => false
-  end.
-
-Fixpoint class_free (w : world) (h : list op) : bool :=
-  match h with
-  | [] => true
-  | o :: h' => negb (KF_D11 o) && negb (KF_D20 o) && negb (KF_D12 w o) && class_free (run_op w o) h'
-  end.
+Definition class_free (h : list op) : bool :=
+  forallb (fun o => negb (KF_D11 o) && negb (KF_D20 o)) h.
 
 Lemma skipn_app_exact : forall A (l1 l2 : list A), skipn (length l1) (l1 ++ l2) = l2.
 Proof. induction l1; intros; cbn; auto. Qed.
@@ -1231,10 +1072,10 @@ Proof.
 Qed.
 
 (* one operation outside the classes keeps the invariant; unless it is a restart it is a Step *)
-Lemma op_step : forall w o, Inv w -> KF_D11 o = false -> KF_D20 o = false -> KF_D12 w o = false ->
+Lemma op_step : forall w o, Inv w -> KF_D11 o = false -> KF_D20 o = false ->
   Inv (run_op w o) /\ (o <> ORestart -> Step w (run_op w o)).
 Proof.
-  intros w o HI H11 H20 H12.
+  intros w o HI H11 H20.
   assert (Hgo : o <> ORestart -> Step w (run_op w o)).
   { intros Hnr. unfold run_op. destruct o as [|f|m|b|]; cbn [step].
     - unfold set_st, upd. cbn [snd]. apply Rel_Step; auto.
@@ -1243,15 +1084,13 @@ Proof.
       destruct (mtype_eqb (f_type f) TSeqReset) eqn:Hs.
       + cbn [KF_D11] in H11. rewrite Hs in H11. cbn in H11.
         eapply pm_seqreset_step; eauto. destruct (f_type f); try discriminate; reflexivity.
-      + destruct (mtype_eqb (f_type f) TResend) eqn:Hr.
-        * assert (Ht : f_type f = TResend) by (destruct (f_type f); try discriminate; reflexivity).
-          destruct (pm_resend_step f w r w' Ht HI E) as [l [L K]]. apply K.
-          cbn [KF_D12] in H12. rewrite Hr in H12. cbn [andb] in H12.
-          unfold new_effects, run_op in H12. cbn [step] in H12. rewrite E in H12. cbn [snd] in H12.
-          rewrite L, skipn_app_exact in H12. apply Nat.eqb_neq. exact H12.
-        * eapply pm_plain_step; eauto.
+      + eapply pm_plain_step; eauto.
     - destruct (send_msg m w) as [r w'] eqn:E. cbn [snd]. cbn [KF_D20] in H20.
-      apply Rel_Step; auto. eapply send_orig_rel; eauto. apply HI.
+      apply Rel_Step; auto.
+      destruct (own_number m) eqn:Ho.
+      + cbn [andb] in H20. apply negb_false_iff in H20.
+        apply Quiet_Rel; [apply HI|]. eapply send_quiet; eauto.
+      + eapply send_orig_rel; eauto. apply HI.
     - destruct (disconnect b w) as [r w'] eqn:E. cbn [snd].
       apply Rel_Step; auto. eapply disconnect_rel; eauto. apply HI.
     - contradiction. }
@@ -1265,27 +1104,27 @@ Proof.
   intros r. unfold Inv, Out_ok, In_ok, AwOk, clean. cbn. repeat split; try lia; try contradiction; try discriminate.
 Qed.
 
-Lemma run_inv : forall h w, Inv w -> class_free w h = true -> Inv (run w h).
+Lemma class_free_cons : forall o h, class_free (o :: h) = true ->
+  KF_D11 o = false /\ KF_D20 o = false /\ class_free h = true.
 Proof.
-  induction h as [|o h IH]; intros w HI Hc; cbn [run fold_left]; [exact HI|].
-  cbn [class_free] in Hc. apply andb_prop in Hc. destruct Hc as [Hc Hrest].
-  apply andb_prop in Hc. destruct Hc as [Hc H12]. apply andb_prop in Hc. destruct Hc as [H11 H20].
-  apply negb_true_iff in H11, H20, H12.
-  apply IH; [exact (proj1 (op_step w o HI H11 H20 H12))|exact Hrest].
+  intros o h H. unfold class_free in H. cbn [forallb] in H. apply andb_prop in H. destruct H as [H Hr].
+  apply andb_prop in H. destruct H as [H1 H2]. apply negb_true_iff in H1, H2. auto.
 Qed.
 
-Lemma class_free_app : forall h1 h2 w, class_free w (h1 ++ h2) = true ->
-  class_free w h1 = true /\ class_free (run w h1) h2 = true.
+Lemma run_inv : forall h w, Inv w -> class_free h = true -> Inv (run w h).
 Proof.
-  induction h1 as [|o h1 IH]; intros h2 w H; cbn [app class_free run fold_left] in *; [auto|].
-  apply andb_prop in H. destruct H as [Hc Hrest]. destruct (IH _ _ Hrest) as [A B].
-  rewrite Hc, A. auto.
+  induction h as [|o h IH]; intros w HI Hc; cbn [run fold_left]; [exact HI|].
+  apply class_free_cons in Hc. destruct Hc as (H11 & H20 & Hrest).
+  apply IH; [exact (proj1 (op_step w o HI H11 H20))|exact Hrest].
 Qed.
+
+Lemma class_free_app : forall h1 h2, class_free (h1 ++ h2) = true -> class_free h1 = true /\ class_free h2 = true.
+Proof. intros h1 h2 H. unfold class_free in *. rewrite forallb_app in H. apply andb_prop in H. exact H. Qed.
 
 Lemma Inv_stored_eq : forall w, Inv w -> Stored_eq w.
 Proof. intros w ((_ & Hso & _) & (Hsi & _) & _). split; auto. Qed.
 
-Lemma stored_eq_partial : forall r h1 h2, class_free (fresh r) (h1 ++ h2) = true -> Stored_eq (run (fresh r) h1).
+Lemma stored_eq_partial : forall r h1 h2, class_free (h1 ++ h2) = true -> Stored_eq (run (fresh r) h1).
 Proof.
   intros r h1 h2 H. apply class_free_app in H. destruct H as [H _].
   apply Inv_stored_eq. apply run_inv; auto using fresh_inv.
@@ -1458,11 +1297,11 @@ Proof.
   intros A l1 l2 m H. rewrite skipn_app. replace (m - length l1)%nat with O by lia. reflexivity.
 Qed.
 
-Lemma wire_op : forall n0 m w o, Inv w -> KF_D11 o = false -> KF_D20 o = false -> KF_D12 w o = false ->
+Lemma wire_op : forall n0 m w o, Inv w -> KF_D11 o = false -> KF_D20 o = false ->
   Wire n0 m w -> Wire n0 m (run_op w o).
 Proof.
-  intros n0 m w o HI H11 H20 H12 (Hm & Hn & HW).
-  destruct (op_step w o HI H11 H20 H12) as [_ HS].
+  intros n0 m w o HI H11 H20 (Hm & Hn & HW).
+  destruct (op_step w o HI H11 H20) as [_ HS].
   destruct o as [|f|x|b|].
   5:{ unfold run_op. cbn [step upd snd].
       destruct (restart_inv w HI) as (_ & _ & Ho & Haw & _). unfold Wire. rewrite Haw, Ho. auto. }
@@ -1475,26 +1314,24 @@ Proof.
        [specialize (HW g Hg Hor); lia|specialize (Wl g Hg Hor); lia].
 Qed.
 
-Lemma wire_run : forall n0 m h w, Inv w -> class_free w h = true -> Wire n0 m w -> Wire n0 m (run w h).
+Lemma wire_run : forall n0 m h w, Inv w -> class_free h = true -> Wire n0 m w -> Wire n0 m (run w h).
 Proof.
   induction h as [|o h IH]; intros w HI Hc HW; cbn [run fold_left]; [exact HW|].
-  cbn [class_free] in Hc. apply andb_prop in Hc. destruct Hc as [Hc Hrest].
-  apply andb_prop in Hc. destruct Hc as [Hc H12]. apply andb_prop in Hc. destruct Hc as [H11 H20].
-  apply negb_true_iff in H11, H20, H12.
-  apply IH; [exact (proj1 (op_step w o HI H11 H20 H12))|exact Hrest|apply wire_op; auto].
+  apply class_free_cons in Hc. destruct Hc as (H11 & H20 & Hrest).
+  apply IH; [exact (proj1 (op_step w o HI H11 H20))|exact Hrest|apply wire_op; auto].
 Qed.
 
 Lemma crash_at_all : forall w, crash_at (length (log w)) w = restart w.
 Proof. intros w. unfold crash_at, restart, db, allwire. rewrite firstn_all. reflexivity. Qed.
 
 Lemma no_number_reuse : forall r h m w1,
-  class_free (fresh r) h = true -> own_number m = false ->
+  class_free h = true -> own_number m = false ->
   let w := run (fresh r) h in
   send_msg m w = (inl tt, w1) ->
   let w2 := crash_at (length (log w1)) w1 in
   writes (log w1) = writes (log w) ++ [out_frame m (nout w)]
   /\ nin w2 = nin w /\ nout w2 = nout w + 1
-  /\ forall h', class_free w2 h' = true ->
+  /\ forall h', class_free h' = true ->
        forall f, In f (skipn (length (allwire w2)) (allwire (run w2 h'))) -> original f = true -> nout w < f_seq f.
 Proof.
   intros r h m w1 Hc Hm w Hs w2.
@@ -1514,7 +1351,7 @@ Qed.
 
 (* ------------------------------------------------------------------ statements over class-free histories *)
 
-Lemma invariant_partial : forall r h, class_free (fresh r) h = true -> Inv (run (fresh r) h).
+Lemma invariant_partial : forall r h, class_free h = true -> Inv (run (fresh r) h).
 Proof. intros. apply run_inv; auto using fresh_inv. Qed.
 
 Lemma restart_counters : forall w, clean w -> Stored_eq w -> nin (restart w) = nin w /\ nout (restart w) = nout w.
@@ -1522,7 +1359,7 @@ Proof.
   intros w Hc [Hi Ho]. unfold restart. cbn [boot nin nout]. rewrite Hc. split; assumption.
 Qed.
 
-Lemma restart_resumes_history : forall r h, class_free (fresh r) h = true ->
+Lemma restart_resumes_history : forall r h, class_free h = true ->
   let w := run (fresh r) h in
   let w' := restart w in
   nin w' = nin w /\ nout w' = nout w
@@ -1552,7 +1389,7 @@ Definition w_d11 : list op := acc_logon.
 Definition o_d11 : op := OIn (mkF TSeqReset 2 false 6 1).
 
 Lemma gapfill_lag_refuted :
-  exists r h o, class_free (fresh r) h = true /\ KF_D11 o = true /\
+  exists r h o, class_free h = true /\ KF_D11 o = true /\
     let w := run (fresh r) (h ++ [o]) in
     ~ Stored_eq w /\ nin w = 6 /\ sin (jt w) = 2 /\ nin (restart w) = 3
     /\ has_resend (writes (log (run (restart w) (logon_ops r 6)))) = true.
@@ -1562,26 +1399,24 @@ Proof.
   intros [H _]. vm_compute in H. discriminate.
 Qed.
 
-(* D12: the second ResendRequest meets a journaled PossDup copy after one replay *)
-Definition w_d12 : list op :=
-  acc_logon ++ [OSend (app_frame 0 1); OSend (app_frame 0 2); OIn (mkF TResend 2 false 3 0)].
-Definition o_d12 : op := OIn (mkF TResend 3 false 2 0).
+(* the former D12 witness (a second ResendRequest over a replayed range): both requests are answered, the journal and
+   the counters are as before, the invariant holds *)
+Definition h_resend2 : list op :=
+  acc_logon ++ [OSend (app_frame 0 1); OSend (app_frame 0 2); OIn (mkF TResend 2 false 3 0); OIn (mkF TResend 3 false 2 0)].
 
-Lemma resend_abort_refuted :
-  exists r h o, class_free (fresh r) h = true /\ KF_D12 (run (fresh r) h) o = true /\
-    let w0 := run (fresh r) h in let w := run_op w0 o in
-    ~ Stored_eq w /\ nout w0 = 4 /\ nout w = 2 /\ sout (jt w) = 2 /\ st w = Handling.
-Proof.
-  exists Acceptor, w_d12, o_d12. split; [vm_compute; reflexivity|]. split; [vm_compute; reflexivity|].
-  cbv zeta. split; [|vm_compute; repeat split; reflexivity].
-  intros [_ H]. vm_compute in H. discriminate.
-Qed.
+Lemma resend_twice_example :
+  class_free h_resend2 = true /\
+  let w := run (fresh Acceptor) h_resend2 in
+  Stored_eq w /\ nout w = 4 /\ sout (jt w) = 3 /\ nin w = 4 /\ st w = Active
+  /\ rout (jt w) = [logon_frame 1; app_frame 2 1; app_frame 3 2]
+  /\ skipn 3 (writes (log w)) = [mkF TApp 3 true 2 0; mkF TApp 2 true 1 0; mkF TApp 3 true 2 0].
+Proof. vm_compute. repeat split; reflexivity. Qed.
 
-(* D20: the application sends SequenceReset(34 = next_num_out) *)
-Definition o_d20 : op := OSend (mkF TSeqReset 2 false 5 1).
+(* D20: the application sends SequenceReset(34 = next_num_out) without GapFillFlag *)
+Definition o_d20 : op := OSend (mkF TSeqReset 2 false 5 0).
 
 Lemma app_seqreset_refuted :
-  exists r h o, class_free (fresh r) h = true /\ KF_D20 o = true /\
+  exists r h o, class_free h = true /\ KF_D20 o = true /\
     let w := run (fresh r) (h ++ [o]) in
     ~ Stored_eq w /\ nout w = 2 /\ sout (jt w) = 2 /\ nout (restart w) = 3.
 Proof.
@@ -1594,7 +1429,7 @@ Qed.
 Definition h_d22 : list op := acc_logon ++ [OIn (mkF TLogout 2 false 0 0)].
 
 Lemma peer_logout_uncounted_refuted :
-  exists r h, class_free (fresh r) h = true /\ inbound_seqs h = [1; 2] /\
+  exists r h, class_free h = true /\ inbound_seqs h = [1; 2] /\
     let w := run (fresh r) h in
     Stored_eq w /\ nin w = 2 /\ nin (restart w) = 2
     /\ let w2 := run (restart w) (logon_ops r 3) in
@@ -1609,7 +1444,7 @@ Definition h_d14 : list op := acc_logon.
 Definition m_d14 : frame := app_frame 0 9.
 
 Lemma crash_before_journal_refuted :
-  exists r h m k h', class_free (fresh r) h = true /\ own_number m = false /\
+  exists r h m k h', class_free h = true /\ own_number m = false /\
     let w := run (fresh r) h in
     exists w1, send_msg m w = (inl tt, w1) /\
     (length (log w) < k < length (log w1))%nat /\
@@ -1647,8 +1482,7 @@ Definition h_nonvac : list op :=
    OIn (mkF TResend 8 false 2 0); ORestart; OConnect; OIn (logon_frame 9); OSend (app_frame 0 8)].
 
 Lemma nonvacuous :
-  class_free (fresh Acceptor) h_nonvac = true
-  /\ count_both (new_effects (run (fresh Acceptor) (firstn 10 h_nonvac)) (OIn (mkF TResend 8 false 2 0))) = 2%nat
+  class_free h_nonvac = true
   /\ let w := run (fresh Acceptor) h_nonvac in
      nin w = 10 /\ nout w = 7 /\ sin (jt w) = 9 /\ sout (jt w) = 6 /\ st w = Active /\ dlv w = [].
 Proof. vm_compute. repeat split; reflexivity. Qed.
